@@ -379,6 +379,7 @@ func makeVocab(level int) *vocab { // 0 = trimmed (full product), 1 = base, 2 = 
 	doms := []func(*routeSpec, bool){
 		func(r *routeSpec, inv bool) { r.ToDomains, r.InvDomains = []string{"example.com"}, inv },
 		func(r *routeSpec, inv bool) { r.ToDomainSets, r.InvDomains = []string{"dsSuffix"}, inv },
+		func(r *routeSpec, inv bool) { r.ToDomainSets, r.InvDomains = []string{"dsOverlap"}, inv },
 	}
 	exps := []func(*routeSpec, bool){func(r *routeSpec, inv bool) { r.ExpPrefixes, r.InvExp = []string{"10.9.0.0/16"}, inv }}
 	tos := []func(*routeSpec, bool){func(r *routeSpec, inv bool) { r.ToPrefixes, r.InvTo = []string{"10.0.0.0/8"}, inv }}
